@@ -183,7 +183,7 @@ def gen_tree(rnd):
         for conf in rnd.sample(['10-a.conf', '20-b.conf'], rnd.randint(0, 2)):
             if rnd.random() < 0.6 and ty in DROPIN_LINES:
                 files[rnd.choice(['src', 'alt']) + f'/{name}.d/{conf}'] = '[' + G.SEC[ty] + ']\n' + rnd.choice(DROPIN_LINES[ty]) + '\n'
-        if ty == 'pod' and rnd.random() < 0.35:
+        if ty == 'pod' and '@' not in name and rnd.random() < 0.35:   # (a template's drop-ins also belong to its instances: kept out of this expectation)
             # the user's own [Unit] entries of the pod may already name a member's service (or anything else): they stay, and the
             # generator still adds its Wants= and Before= for every member
             cands = [n[:-len('.container')] + '.service' for n in fs if n.endswith('.container')] + ['elsewhere.service']
